@@ -5,6 +5,7 @@ use proptest::prelude::*;
 use rayon::prelude::*;
 use rs1090::decode::{Message, SensorMetadata, TimedMessage};
 use serde_json::{json, Value};
+use std::collections::BTreeMap;
 use std::sync::Mutex;
 use vcore::enc;
 use vcore::ev::{catch, h64, run_prop, Check, Ctx, Failure};
@@ -215,7 +216,7 @@ fn arrival(nframes: u8, nrx: u8, grid: Vec<u64>) -> impl Strategy<Value = Arriva
 }
 
 pub fn run(ctx: &Ctx) {
-    ctx.set_rule("arrival histories over a pool of 6 frames (5 decodable, 1 DF17 with a bad syndrome) x up to 3 receivers, timestamps on an exact millisecond grid (non-decreasing, equal, decreasing, far apart), windows {0,1,2,5,400,450}: exhaustive for length <= 5 (thorough 6) over 2 frames x 2 receivers x 4 grid times x 3 windows; proptest-random up to 200 arrivals. Driven through the real deduplicate_messages (send all, close, drain). Oracle: an executable reference model for the exact output sequence, plus model-free invariants (nothing invented / lost / duplicated, record timestamp = first arrival, receptions in arrival order; for non-decreasing arrivals same-frame records >= window apart and output ordered by first arrival). Non-trivial = >= 1 emitted record with >= 2 receptions; distinct by hash of (history, window).");
+    ctx.set_rule("arrival histories over a pool of 6 frames (5 decodable, 1 DF17 with a bad syndrome) x up to 3 receivers, timestamps on an exact millisecond grid (non-decreasing, equal, decreasing, far apart), windows {0,1,2,5,400,450}: exhaustive for length <= 5 (thorough 6) over 2 frames x 2 receivers x 4 grid times x 3 windows; proptest-random up to 200 arrivals. Driven through the real deduplicate_messages (send all, close, drain). Oracle: an executable reference model for the exact output sequence, plus model-free invariants (nothing invented / lost / duplicated, record timestamp = first arrival, receptions in arrival order; for non-decreasing arrivals same-frame records >= window apart and output ordered by first arrival). End to end: overlapping sets of frames are served to the real jet1090 binary through two Beast TCP sources (window 20-150 ms, wall-clock arrivals): nothing invented, per frame the receptions printed equal the receptions sent per receiver, record time = first reception, undecodable frames never appear. Non-trivial = >= 1 emitted record with >= 2 receptions; distinct by hash of (history, window).");
     ctx.assume("the implementation's own millisecond clock ((timestamp * 1e3) as u128) is the clock; timestamps are generated mid-millisecond so that the conversion is exact");
     let frames = pool();
     let decodable: Vec<bool> = frames.iter().map(|f| Message::try_from(f.as_slice()).is_ok()).collect();
@@ -310,6 +311,25 @@ pub fn run(ctx: &Ctx) {
     let h = vec![Arrival { frame: 0, rx: 0, ms: 1000 }, Arrival { frame: 0, rx: 1, ms: 1001 }, Arrival { frame: 3, rx: 0, ms: 1001 }, Arrival { frame: 1, rx: 2, ms: 1500 }];
     ctx.sample(json!({"window": 400, "history": h.iter().map(|a| json!({"frame": hex::encode(&frames[a.frame as usize]), "receiver": a.rx, "ms": a.ms})).collect::<Vec<_>>(), "emitted": run_real(&h, 400, &frames, (0, 0)).map(|r| r.iter().map(|x| json!({"receptions": x.receptions, "ts": x.ts})).collect::<Vec<_>>()).ok()}));
     cli_differential(ctx);
+    // the deduplicator as the application wires it: two TCP sources into the real binary
+    match crate::e2e::Env::from_env() {
+        Some(env) => {
+            let n = ctx.tier.pick(48u32, 640u32);
+            let case = (proptest::collection::vec((0u8..=14, any::<bool>(), any::<bool>(), 0u8..3), 1..24), proptest::sample::select(vec![20u32, 60, 150])).prop_map(|(items, window)| E2eCase { items, window });
+            (0..16u32).into_par_iter().for_each(|s| {
+                run_prop(ctx, &format!("e2e-{s}"), n / 16, case.clone(), |c| {
+                    ctx.eval();
+                    let sc = e2e_scenario(c);
+                    let rep = json!({"kind": "e2e", "scenario": crate::e2e::scenario_json(&sc)});
+                    replay_e2e(ctx, &env, &sc, &rep, &format!("c10-{s}"))
+                });
+            });
+        }
+        None => {
+            eprintln!("INCONCLUSIVE: JET1090_BIN / VERIF_E2E_CACHE are not set (run through ./check)");
+            std::process::exit(2);
+        }
+    }
 }
 
 /// 14 decodable frames (12 distinct DF17 identifications + DF4 + DF11) and one undecodable, for the CLI runs
@@ -406,7 +426,110 @@ fn sorted(mut v: Vec<Arrival>) -> Vec<Arrival> {
     v
 }
 
+// ------------------------------------------------------------------------------------------------
+// End to end: the deduplicator as jet1090 wires it (main.rs: every source task sends into one channel, the
+// deduplicator feeds the decoding loop). Two Beast TCP sources deliver overlapping sets of frames to the real binary;
+// arrival times are the wall clock, so only timing-independent statements are judged: nothing invented, nothing
+// lost or duplicated (per frame the receptions printed equal the receptions sent, per source), the record's time is
+// its first reception's, undecodable frames never appear.
+
+#[derive(Clone, Debug)]
+pub struct E2eCase {
+    /// (index into the CLI frame pool, to source 0?, to source 1?, repeats)
+    pub items: Vec<(u8, bool, bool, u8)>,
+    pub window: u32,
+}
+
+pub fn e2e_scenario(c: &E2eCase) -> crate::e2e::Scenario {
+    let big = cli_pool();
+    let bad = pool()[3].clone(); // DF17 with a bad syndrome: never decodes
+    let mut sends = vec![];
+    for (i, (f, a, b, rep)) in c.items.iter().enumerate() {
+        let frame = if *f as usize % (big.len() + 1) == big.len() { bad.clone() } else { big[*f as usize % (big.len() + 1)].clone() };
+        for r in 0..=(*rep % 3) {
+            if *a || !*b {
+                sends.push(crate::e2e::Send { source: 0, frame: frame.clone(), pause_ms: (i as u32 + r as u32) % 3, cut: 0 });
+            }
+            if *b {
+                sends.push(crate::e2e::Send { source: 1, frame: frame.clone(), pause_ms: (i as u32) % 2, cut: 0 });
+            }
+        }
+    }
+    crate::e2e::Scenario { references: vec![None, None], sends, df_filter: None, aircraft_filter: None, dedup_ms: c.window, update_position: false, with_file: false, via_config: false }
+}
+
+pub fn judge_e2e(ctx: &Ctx, sc: &crate::e2e::Scenario, out: &crate::e2e::Outcome, rep: &Value) -> Check {
+    let fail = |sig: &str, d: String| Failure::new(format!("c10:e2e:{sig}"), d, rep.clone());
+    // receptions sent per frame and source
+    let mut sent: BTreeMap<String, [u64; 2]> = BTreeMap::new();
+    for s in &sc.sends {
+        sent.entry(hex::encode(&s.frame)).or_insert([0, 0])[s.source % 2] += 1;
+    }
+    let mut got: BTreeMap<String, BTreeMap<u64, u64>> = BTreeMap::new();
+    let mut multi = false;
+    for l in &out.lines {
+        let v: Value = serde_json::from_str(l).map_err(|e| fail("malformed-line", format!("{e}: {l}")))?;
+        if crate::e2e::is_marker(&v["icao24"]) {
+            continue;
+        }
+        let f = v["frame"].as_str().unwrap_or("").to_string();
+        let Some(_) = sent.get(&f) else { return Err(fail("invented-record", format!("a record for frame {f}, which was never sent: {l}"))) };
+        if Message::try_from(hex::decode(&f).unwrap_or_default().as_slice()).is_err() {
+            return Err(fail("undecodable-frame-emitted", l.clone()));
+        }
+        let meta = v["metadata"].as_array().cloned().unwrap_or_default();
+        if meta.is_empty() {
+            return Err(fail("record-without-reception", l.clone()));
+        }
+        multi |= meta.len() >= 2;
+        if v["timestamp"].as_f64() != meta[0]["system_timestamp"].as_f64() {
+            return Err(fail("timestamp-not-first-reception", l.clone()));
+        }
+        for m in &meta {
+            let serial = m["serial"].as_u64().ok_or_else(|| fail("reception-without-serial", l.clone()))?;
+            *got.entry(f.clone()).or_default().entry(serial).or_insert(0) += 1;
+        }
+    }
+    for (f, n) in &sent {
+        if Message::try_from(hex::decode(f).unwrap_or_default().as_slice()).is_err() {
+            continue;
+        }
+        let mut want: Vec<u64> = n.iter().copied().filter(|x| *x > 0).collect();
+        let mut have: Vec<u64> = got.get(f).map(|m| m.values().copied().collect()).unwrap_or_default();
+        want.sort();
+        have.sort();
+        if want != have {
+            return Err(fail(if have.iter().sum::<u64>() < want.iter().sum::<u64>() { "receptions-lost" } else { "receptions-invented-or-misattributed" }, format!("frame {f}: {:?} receptions were sent through the two sources, the records show {:?} per receiver", n, got.get(f))));
+        }
+    }
+    ctx.class("end-to-end scenario judged");
+    if multi {
+        ctx.nontrivial(h64(&("e2e", rep.to_string())));
+    }
+    Ok(())
+}
+
+pub fn replay_e2e(ctx: &Ctx, env: &crate::e2e::Env, sc: &crate::e2e::Scenario, rep: &Value, tag: &str) -> Check {
+    match crate::e2e::play_twice(env, sc, tag) {
+        Err(crate::e2e::Fail::Skip(why)) => {
+            ctx.exclude(&format!("end-to-end scenario not judged: {}", why.split(':').next().unwrap_or("")));
+            Ok(())
+        }
+        Err(crate::e2e::Fail::Died(why)) => Err(Failure::new("c10:e2e:jet1090-died", format!("jet1090 {why} (twice)"), rep.clone())),
+        Ok(out) => judge_e2e(ctx, sc, &out, rep),
+    }
+}
+
 pub fn replay(ctx: &Ctx, v: &Value) {
+    if v["kind"] == "e2e" {
+        let Some(env) = crate::e2e::Env::from_env() else {
+            eprintln!("INCONCLUSIVE: JET1090_BIN / VERIF_E2E_CACHE are not set (replay through ./check)");
+            std::process::exit(2);
+        };
+        ctx.eval();
+        ctx.judge(replay_e2e(ctx, &env, &crate::e2e::scenario_of(&v["scenario"]), v, "c10-replay"));
+        return;
+    }
     let frames = pool();
     let decodable: Vec<bool> = frames.iter().map(|f| Message::try_from(f.as_slice()).is_ok()).collect();
     let hist: Vec<Arrival> = v["history"].as_array().map(|a| a.iter().map(|x| Arrival { frame: x[0].as_u64().unwrap_or(0) as u8, rx: x[1].as_u64().unwrap_or(0) as u8, ms: x[2].as_u64().unwrap_or(0) }).collect()).unwrap_or_default();
